@@ -580,6 +580,28 @@ def clause6_transparency(ctx, P, cg):
             if neg and v.ret_const() != want:
                 bad = v
         ctx.ob("C12.6 R-SIB", f, "negative-result-closes", bad is None, "a failing parse_message does not end the connection")
+    # the send side: the transports' send_message implementations are siblings - neither fails a message because of its length
+    # (what does not fit the socket is queued or refused by the buffered socket below both of them, alike)
+    from .c11 import send_impls
+    ns = 0
+    for name in sorted(send_impls(P, cg)):
+        g = P.functions[name]
+        ns += 1
+        lenp = ("param", 2, g.params[2]["name"]) if g.nparams > 2 else None
+        bads = None
+        for v in Q.path_views(ctx, P, g):
+            rc = v.ret_const()
+            if rc is None or rc >= 0:
+                continue
+            # (the 4-byte length prefix of the raw transport cannot express more than UINT32_MAX: that gate is a format limit)
+            if v.has_atom(lambda a, p: a[0] == "cmp" and lenp in (a[2], a[3]) and
+                          not any(x[0] == "const" and (x[1] & 0xFFFFFFFFFFFFFFFF) >= 0xFFFFFFFF for x in (a[2], a[3]))):
+                bads = v
+        ctx.ob("C12.6 R-SIB", g, "send:length-is-no-reason-to-fail", bads is None,
+               "%s() fails a message on account of its length: the same answer is delivered on one transport and costs the "
+               "connection on the other" % g.srcname, witness=bads.witness() if bads else None)
+    if ns < 2:
+        raise AnalysisBroken("send_message implementations: %d" % ns)
     gp = P.fn("websocket.c:ws_get_payload")
     ok = False
     for v in Q.path_views(ctx, P, gp):
@@ -724,3 +746,5 @@ def run(ctx):
         clause8_frame_flags(ctx, P, cg)
         clause9_misc(ctx, P, cg)
         clause10_header_values(ctx, P, cg)
+        from .c06 import clause11b_bitfield_copies
+        clause11b_bitfield_copies(ctx, P)
